@@ -3,6 +3,7 @@ import Model.Stats.Descr
 import Model.Stats.TTest
 import Model.Stats.Beta
 import Model.Stats.Dists
+import Model.Stats.Weighted
 import Model.Spec.StatsSpec
 
 /-!
@@ -165,6 +166,16 @@ def wdescr (l : Line) : IO Unit := do
   let gmean := bitsD (l.getD "gmean"); let ggeo := bitsD (l.getD "ggeo")
   let gmin := bitsD (l.getD "gmin"); let gmax := bitsD (l.getD "gmax")
   let gpct := bitsList (l.getD "gpct")
+  -- K: float64 instance of the weighted model
+  let wsB := bitsList (l.getD "ws")
+  let srtd := l.getD "sorted" == "1"
+  let pf : List (Fl × Fl) := (xsB.map Fl.mk).zip (wsB.map Fl.mk)
+  let logT := table (xsB.zip (bitsList (l.getD "lx")))
+  let expT := table [(bitsD (l.getD "mlog"), bitsD (l.getD "emlog"))]
+  let kb := Weighted.wbounds pf srtd
+  let kp := (bitsList (l.getD "ps")).map fun p => showOpt (Weighted.wpercentile pf srtd ⟨p⟩)
+  IO.println s!"obs {id} mean={showOpt (Weighted.wmean pf)} geo={showOpt (Weighted.wgeoMean logT expT pf)} min={showOpt (kb.map (·.1))} max={showOpt (kb.map (·.2))} pct={showList kp}"
+  let fuzzy := l.getD "fuzzy" == "1"
   let pairs := xq.zip wq
   let W := wq.foldl (· + ·) 0
   let nz := (pairs.filter (fun (_, w) => w != 0)).map (·.1)
@@ -177,6 +188,7 @@ def wdescr (l : Line) : IO Unit := do
   let tgeo :=
     if all0 then expectNaN ggeo
     else if nz.any (· ≤ 0) then "ok"     -- log of a non-positive value: outside the definition
+    else if fuzzy then "ok"              -- weights not multiples of 1/4: only K (bit-exact) judges it
     else if !F64.isFinite ggeo then s!"nonfinite({showB ggeo})"
     else
       -- g^(4W) = Π x^(4w) (weights are multiples of 1/4; zero-weight entries contribute x^0 = 1)
@@ -203,6 +215,16 @@ def wdescr (l : Line) : IO Unit := do
         | (x, w) :: r => if c + w > target then some x else go (c + w) r
       go 0 srt
   let tp := allOk ((pq.zip gpct).map fun (p, g) =>
+    if fuzzy ∧ 0 < p ∧ p < 1 ∧ !all0 then
+      -- inexact weights: total·p and the running subtraction round; accept what the definition
+      -- gives for p ∓ 1e-9 (a value of the sample between those two)
+      let e : Rat := mkRat 1 (10 ^ 9)
+      match wpct (p - e), wpct (if p + e < 1 then p + e else 1) with
+      | some lo, some hi =>
+        if F64.isFinite g ∧ lo ≤ toRat g ∧ toRat g ≤ hi ∧ nz.contains (toRat g) then "ok"
+        else s!"bad(p~{showRat p},go={showB g},want~{showRat lo}..{showRat hi})"
+      | _, _ => expectNaN g
+    else
     match wpct p with
     | none => expectNaN g
     | some v => if F64.isFinite g ∧ toRat g == v then "ok" else s!"bad(p~{showRat p},go={showB g},want~{showRat v})")
